@@ -134,6 +134,8 @@ void usim_child_exit(void) __attribute__((noreturn));
 void usim_set_ncpus(int n);
 /* pthread_create() issued by threads the library created itself (unnamed) may fail with EAGAIN (fault pthread_create_eagain) */
 void usim_lib_threads_create_fail(int on);
+/* oracle (C19): a thread created by library code (not by the scenario) must be created with signals blocked */
+void usim_require_library_threads_block_signals(int on);
 
 /* Tracked-arena helpers */
 int usim_mem_is_live(const void *p);
